@@ -1208,14 +1208,20 @@ func (x *Placeholder) Set(val Native) error {
 	}
 
 	// Replace all previously written placeholders with the final value.
-	x.pdf.w.Flush()
+	err = x.pdf.w.Flush()
+	if err != nil {
+		return err
+	}
 	fill := x.pdf.origW.(io.WriteSeeker)
 	currentPos, err := fill.Seek(0, io.SeekCurrent)
 	if err != nil {
 		return err
 	}
+	// The recorded positions count from the start of the file, which need
+	// not be the start of the output (there may be other data in front).
+	base := currentPos - x.pdf.w.pos
 	for i, pos := range x.pos {
-		_, err = fill.Seek(pos, io.SeekStart)
+		_, err = fill.Seek(base+pos, io.SeekStart)
 		if err != nil {
 			return err
 		}
